@@ -13,7 +13,7 @@ import (
 
 func init() {
 	Register(&Scenario{Prop: "C14", Name: "addresses", Run: scenC14, Weight: 1,
-		Rule: "2-3 peers with distinct identities and separate block stores; 3-8 (thorough 3-16) databases whose names come from a segment grammar {ascii, unicode, space, empty, '.', '..', nested, dotted, CID-looking segments of addresses created earlier in the same run}, any registered type, explicit write lists or the creator default; for every input DetermineAddress on every peer, address.Parse(String()) round trip, pairwise distinctness of addresses of distinct inputs; Create on one peer and Open on another through the simulated exchange under delay, loss until heal, or a virtual-time timeout: Open fails or yields the creation type and write list; Create over an existing local database (also after a restart) must be refused without Overwrite; Open(LocalOnly) of an unknown database must be refused; non-trivial = >=3 accepted names, >=1 remote open that succeeded and >=1 name with a special segment"})
+		Rule: "2-3 peers with distinct identities and separate block stores; 3-8 (thorough 3-16) databases whose names come from a segment grammar {ascii, unicode, space, empty, '.', '..', nested, dotted, CID-looking segments of addresses created earlier in the same run}, any registered type, explicit write lists or the creator default; for every input DetermineAddress on every peer, address.Parse(String()) round trip, pairwise distinctness of addresses of distinct inputs; Create on one peer and Open on another through the simulated exchange under delay, loss until heal, or a virtual-time timeout: Open fails or yields the creation type and write list; Create over an existing local database (also after a restart, and after an overwriting Create that failed half-way under local read errors) must be refused without Overwrite and the database must still open LocalOnly; Open(LocalOnly) of an unknown database must be refused; non-trivial = >=3 accepted names, >=1 remote open that succeeded and >=1 name with a special segment"})
 }
 
 type c14input struct {
@@ -250,6 +250,47 @@ func scenC14(k *K) {
 			})
 			if rop.Done && rop.Err == nil {
 				k.Failf("C14/create-over-existing", "second Create(%q) on n%d succeeded although the database exists locally and Overwrite was not set", name, by)
+			}
+			if k.C.Chance(1, 2) {
+				// an overwriting Create that fails half-way (reads of local blocks fail, like a
+				// disk error) must leave the existing database known locally
+				peers[by].Inc.SetSlowLocal(true)
+				saved := k.F
+				k.F.FailFetch = 10
+				fop := k.Do(by, fmt.Sprintf("create-overwrite-under-read-errors %q", name), 100, func() (interface{}, error) {
+					ctx, cancel := OpCtx(time.Minute)
+					defer cancel()
+					return peers[by].DB.Create(ctx, name, typ, createOpts(true))
+				})
+				k.F = saved
+				peers[by].Inc.SetSlowLocal(false)
+				if fop.Done && fop.Err != nil {
+					k.W.Stat("overwrite-create-failed-half-way")
+					aop := k.Do(by, fmt.Sprintf("create-again-after-failed-overwrite %q", name), 100, func() (interface{}, error) {
+						ctx, cancel := OpCtx(time.Minute)
+						defer cancel()
+						return peers[by].DB.Create(ctx, name, typ, createOpts(false))
+					})
+					if aop.Done && aop.Err == nil {
+						k.Failf("C14/create-over-existing", "Create(%q) without Overwrite succeeded on n%d after an overwriting Create had failed (%v): the existing database was forgotten", name, by, fop.Err)
+					}
+					lop := k.Do(by, "open-localonly-after-failed-overwrite", 100, func() (interface{}, error) {
+						ctx, cancel := OpCtx(time.Minute)
+						defer cancel()
+						t := true
+						return peers[by].DB.Open(ctx, in.addr, &orbitdb.CreateDBOptions{LocalOnly: &t})
+					})
+					if !lop.Done || lop.Err != nil {
+						k.Failf("C14/localonly-known-refused", "Open(LocalOnly) of the existing local database %s was refused on n%d after an overwriting Create had failed (%v): done=%v err=%v", in.addr, by, fop.Err, lop.Done, lop.Err)
+					}
+					if lop.Done && lop.Err == nil {
+						ls := lop.Val.(iface.Store)
+						k.Do(by, "close-store", 50, func() (interface{}, error) { return nil, ls.Close() })
+					}
+				} else if fop.Done && fop.Err == nil {
+					fs := fop.Val.(iface.Store)
+					k.Do(by, "close-store", 50, func() (interface{}, error) { return nil, fs.Close() })
+				}
 			}
 			oop := k.Do(by, fmt.Sprintf("create-overwrite %q", name), 100, func() (interface{}, error) {
 				ctx, cancel := OpCtx(time.Minute)
